@@ -14,6 +14,10 @@ Proof. vm_compute. reflexivity. Qed.
 Lemma ob_connect_shape :
   steps_of connect_steps = [SModifyRequest; SShouldMitm; SConnect; SModifyResponse; SWriteResponse].
 Proof. vm_compute. reflexivity. Qed.
+(* the requests of an intercepted tunnel are handled by the same handle() (handleLoop keeps calling it on the
+   connection that handleMITM switched to the TLS session) *)
+Lemma ob_mitm_session_reenters_handle : mitm_session_reenters_handle = true.
+Proof. vm_compute. reflexivity. Qed.
 (* the http.Handler implementation has the same order (no MITM there) *)
 Lemma ob_handler_shapes :
   steps_of handler_handle_steps = [SModifyRequest; SRoundTrip; SModifyResponse; SWriteResponse] /\
